@@ -195,6 +195,10 @@ def process_object(data, dic):
             raise JSONParseError(str(e) + f" in object with ID `{id_}'") from None
 
         obj = klass.from_json_safe(data, dic)
+        # the ID may have been registered while this object was being built
+        # (an object nested in its own definition using the same ID)
+        if id_ in dic:
+            raise JSONParseError(f"Object with ID `{id_}' already exists")
         dic[id_] = obj
     else:
         raise JSONParseError(
